@@ -23,6 +23,14 @@ import (
 // BurstCase: N events on the ledger channel before the client reads any.
 type BurstCase struct {
 	Kinds []string `json:"kinds"` // prog | conc | reg (registered events carry increasing versions)
+	// Pubs > 0: that many transactions (versions 1..Pubs) are published back to
+	// back right after the start, then version Low < Pubs is reported as
+	// registered: the watcher must refute with version Pubs.
+	Pubs int `json:"pubs,omitempty"`
+	Low  int `json:"low,omitempty"`
+	// StopBeforeRead: (at most 10 events) the channel is de-registered before
+	// the client reads; what was relayed must still be readable.
+	StopBeforeRead bool `json:"stopbeforeread,omitempty"`
 }
 
 func drawBurstCase(t *rapid.T) BurstCase {
@@ -30,6 +38,15 @@ func drawBurstCase(t *rapid.T) BurstCase {
 	n := rapid.IntRange(1, 16).Draw(t, "n")
 	if rapid.Bool().Draw(t, "aroundbuffer") {
 		n = rapid.IntRange(9, 14).Draw(t, "nbuf")
+	}
+	switch rapid.IntRange(0, 3).Draw(t, "variant") {
+	case 0:
+		c.Pubs = rapid.IntRange(2, 200).Draw(t, "pubs")
+		c.Low = rapid.IntRange(0, c.Pubs-1).Draw(t, "low")
+		n = rapid.IntRange(0, 8).Draw(t, "nafter")
+	case 1:
+		c.StopBeforeRead = true
+		n = rapid.IntRange(1, 9).Draw(t, "nstop")
 	}
 	for i := 0; i < n; i++ {
 		c.Kinds = append(c.Kinds, rapid.SampledFrom([]string{"prog", "prog", "conc", "reg"}).Draw(t, "k"))
@@ -39,7 +56,13 @@ func drawBurstCase(t *rapid.T) BurstCase {
 
 func runBurstCase(c BurstCase) *h.Outcome {
 	o := &h.Outcome{}
-	o.Nontrivial = len(c.Kinds) > 10
+	o.Nontrivial = len(c.Kinds) > 10 || c.Pubs > 10 || c.StopBeforeRead
+	if c.Pubs > 10 {
+		o.Class("publication-burst-beyond-buffer")
+	}
+	if c.StopBeforeRead {
+		o.Class("stop-before-read")
+	}
 	o.Fail = h.Guard(func() *h.Failure {
 		u := theUniverse()
 		rs := newScriptRS()
@@ -48,7 +71,7 @@ func runBurstCase(c BurstCase) *h.Outcome {
 			return h.Failf("harness", "NewWatcher: %v", err)
 		}
 		tx0 := fresh(u.tx(0, 0, nil))
-		_, stream, err := w.StartWatchingLedgerChannel(context.Background(), channel.SignedState{Params: u.params[0], State: tx0.State, Sigs: tx0.Sigs})
+		pub, stream, err := w.StartWatchingLedgerChannel(context.Background(), channel.SignedState{Params: u.params[0], State: tx0.State, Sigs: tx0.Sigs})
 		if err != nil {
 			return h.Failf("start-failed", "StartWatchingLedgerChannel: %v", err)
 		}
@@ -60,6 +83,20 @@ func runBurstCase(c BurstCase) *h.Outcome {
 		// version 0 was published, so nothing is refuted and every one is relayed)
 		var events []channel.AdjudicatorEvent
 		regV := uint64(0)
+		if c.Pubs > 0 {
+			txs := make([]channel.Transaction, c.Pubs)
+			for i := range txs {
+				txs[i] = fresh(u.tx(0, uint64(i+1), nil))
+			}
+			for i := range txs { // back to back: the watcher's 10-slot buffer fills up
+				if err := pub.Publish(context.Background(), txs[i]); err != nil {
+					return h.Failf("publish-failed", "Publish of version %d: %v", i+1, err)
+				}
+			}
+			regV = uint64(c.Pubs)
+			t := fresh(u.tx(0, uint64(c.Low), nil))
+			events = append(events, channel.NewRegisteredEvent(u.ids[0], &channel.ElapsedTimeout{}, uint64(c.Low), t.State, t.Sigs))
+		}
 		for _, k := range c.Kinds {
 			switch k {
 			case "reg":
@@ -95,6 +132,21 @@ func runBurstCase(c BurstCase) *h.Outcome {
 		}()
 		// give the watcher time to take in what it can, then read everything
 		time.Sleep(time.Duration(2+len(events)/4) * time.Millisecond)
+		fedTaken := false
+		if c.StopBeforeRead {
+			// all events are relayed (the feeder is done and the watcher is back in
+			// Next after the last one)
+			if f := <-fed; f != nil {
+				return f
+			}
+			fedTaken = true
+			if ok, _ := sub.waitNexts(len(events) + 1); !ok {
+				return h.Failf("harness:not-relayed", "the watcher did not come back for a further event")
+			}
+			if err := w.StopWatching(context.Background(), u.ids[0]); err != nil {
+				return h.Failf("stop-refused", "StopWatching of a ledger channel without sub-channels: %v", err)
+			}
+		}
 		for i, want := range events {
 			select {
 			case got, ok := <-stream.EventStream():
@@ -115,19 +167,34 @@ func runBurstCase(c BurstCase) *h.Outcome {
 			}
 		case <-time.After(3 * time.Millisecond):
 		}
-		if f := <-fed; f != nil {
-			return f
+		if !fedTaken {
+			if f := <-fed; f != nil {
+				return f
+			}
 		}
-		if len(rs.takeCalls()) > 0 {
+		calls := rs.takeCalls()
+		if c.Pubs > 0 {
+			if len(calls) != 1 {
+				return h.Failf("burst:refutations", "%d transactions were published back to back, then version %d was reported as registered: Register was called %d times, expected once", c.Pubs, c.Low, len(calls))
+			}
+			if got := calls[0].req.Tx.Version; got != uint64(c.Pubs) {
+				return h.Failf("burst:refuted-with-stale", "%d transactions (versions 1..%d) were published back to back, then version %d was reported as registered: the watcher refuted with version %d, the newest published one is %d", c.Pubs, c.Pubs, c.Low, got, c.Pubs)
+			}
+			if d := sameTx(calls[0].req.Tx.State, calls[0].req.Tx.Sigs, u.tx(0, uint64(c.Pubs), nil)); d != "" {
+				return h.Failf("burst:refuted-with-other", "refutation after a burst of %d publications: %s", c.Pubs, d)
+			}
+		} else if len(calls) > 0 {
 			return h.Failf("register-unexpected", "Register was called although nothing newer than the reported versions was published")
 		}
-		_ = w.StopWatching(context.Background(), u.ids[0])
+		if !c.StopBeforeRead {
+			_ = w.StopWatching(context.Background(), u.ids[0])
+		}
 		return nil
 	})
 	return o
 }
 
-const burstRule = "1-16 adjudicator events (progressed, concluded, registered with increasing versions; nothing newer is published, so nothing is refuted and every event must be relayed) are reported for the watched ledger channel BEFORE the client reads its event stream (half of the cases have 9-14 events, around the relay's buffer of 10); then the client reads. Oracle: exactly the reported events arrive, in order. non-trivial = more than 10 events"
+const burstRule = "three variants. (publication burst, 1 in 4) 2-200 transactions of increasing versions are published back to back (the states subscription buffers 10), then a lower version is reported as registered: Register must be called exactly once, with the newest published transaction; 0-8 further events follow. (stop before read, 1 in 4) 1-9 events are relayed, the channel is de-registered, and only then the client reads: every relayed event must still arrive. (event burst) 1-16 adjudicator events (progressed, concluded, registered with increasing versions; nothing newer is published, so nothing is refuted and every event must be relayed) are reported for the watched ledger channel BEFORE the client reads its event stream (half of the cases have 9-14 events, around the relay's buffer of 10); then the client reads. Oracle: exactly the reported events arrive, in order. non-trivial = more than 10 events or publications, or stop before read"
 
 func TestBurst(t *testing.T) {
 	rec := h.Begin("C05", "burst")
